@@ -85,6 +85,7 @@ static void build_tables() {
     RT(T8, "string(p,n,m).to_utf16", U16, M_ARG, 0, 0, return R(string(p, n, m).to_utf16()););
     RT(T8, "string(p,n,m).to_std_u16string", U16, M_ARG, 0, 0, return RS(string(p, n, m).to_std_u16string()););
     RT(T8, "string(p,n,m).to_buffer(u16)", U16, M_ARG, 0, 0, ST::utf16_buffer b; string(p, n, m).to_buffer(b); return R(b););
+    RT(T8, "string(p,n,m).to_buffer(u16 holding a longer text)", U16, M_ARG, 0, 0, ST::utf16_buffer b(u"an earlier, longer result \xD83D\xDE00 still in the caller's buffer", 57); string(p, n, m).to_buffer(b); return R(b););
     RT(T8, "string(p,n,m).to_std_string(u16&)", U16, M_ARG, 0, 0, std::u16string b; string(p, n, m).to_std_string(b); return RS(b););
 
     RT(T8, "utf8_to_utf32(p,n,m)", U32, M_ARG, 0, 0, return R(ST::utf8_to_utf32(p, n, m)););
@@ -95,6 +96,7 @@ static void build_tables() {
     RT(T8, "string(p,n,m).to_utf32", U32, M_ARG, 0, 0, return R(string(p, n, m).to_utf32()););
     RT(T8, "string(p,n,m).to_std_u32string", U32, M_ARG, 0, 0, return RS(string(p, n, m).to_std_u32string()););
     RT(T8, "string(p,n,m).to_buffer(u32)", U32, M_ARG, 0, 0, ST::utf32_buffer b; string(p, n, m).to_buffer(b); return R(b););
+    RT(T8, "string(p,n,m).to_buffer(u32 holding a longer text)", U32, M_ARG, 0, 0, ST::utf32_buffer b(U"an earlier, longer result still in the caller's buffer", 54); string(p, n, m).to_buffer(b); return R(b););
     RT(T8, "string(p,n,m).to_std_string(u32&)", U32, M_ARG, 0, 0, std::u32string b; string(p, n, m).to_std_string(b); return RS(b););
 
     RT(T8, "utf8_to_wchar(p,n,m)", WC, M_ARG, 0, 0, return R(ST::utf8_to_wchar(p, n, m)););
@@ -105,6 +107,7 @@ static void build_tables() {
     RT(T8, "string(p,n,m).to_wchar", WC, M_ARG, 0, 0, return R(string(p, n, m).to_wchar()););
     RT(T8, "string(p,n,m).to_std_wstring", WC, M_ARG, 0, 0, return RS(string(p, n, m).to_std_wstring()););
     RT(T8, "string(p,n,m).to_buffer(wc)", WC, M_ARG, 0, 0, ST::wchar_buffer b; string(p, n, m).to_buffer(b); return R(b););
+    RT(T8, "string(p,n,m).to_buffer(wc holding a longer text)", WC, M_ARG, 0, 0, ST::wchar_buffer b(L"an earlier, longer result still in the caller's buffer", 54); string(p, n, m).to_buffer(b); return R(b););
     RT(T8, "string(p,n,m).to_std_string(w&)", WC, M_ARG, 0, 0, std::wstring b; string(p, n, m).to_std_string(b); return RS(b););
 
     RT(T8, "utf8_to_latin_1(p,n,m,s)", L1, M_ARG, 1, 0, return R(ST::utf8_to_latin_1(p, n, m, sb)););
@@ -116,6 +119,7 @@ static void build_tables() {
     RT(T8, "string(p,n,m).to_latin_1()", L1, M_ARG, 0, 0, return R(string(p, n, m).to_latin_1()););
     RT(T8, "string(p,n,m).to_std_string(0,s)", L1, M_ARG, 1, 0, return RS(string(p, n, m).to_std_string(false, sb)););
     RT(T8, "string(p,n,m).to_buffer(cb,0,s)", L1, M_ARG, 1, 0, ST::char_buffer b; string(p, n, m).to_buffer(b, false, sb); return R(b););
+    RT(T8, "string(p,n,m).to_buffer(cb holding a longer text,0,s)", L1, M_ARG, 1, 0, ST::char_buffer b("an earlier, longer result still in the caller's buffer", 54); string(p, n, m).to_buffer(b, false, sb); return R(b););
     RT(T8, "string(p,n,m).to_std_string(s&,0,s)", L1, M_ARG, 1, 0, std::string b; string(p, n, m).to_std_string(b, false, sb); return RS(b););
 
     // -> ST::string (UTF-8 to UTF-8 under validation)
@@ -148,6 +152,7 @@ static void build_tables() {
     RT(T8, "string(p,n,m).to_std_u8string", U8, M_ARG, 0, 0, return RS(string(p, n, m).to_std_u8string()););
     RT(T8, "string(p,n,m).view", U8, M_ARG, 0, 0, string s(p, n, m); return RV(s.view()););
     RT(T8, "string(p,n,m).to_buffer(cb)", U8, M_ARG, 0, 0, ST::char_buffer b; string(p, n, m).to_buffer(b); return R(b););
+    RT(T8, "string(p,n,m).to_buffer(cb holding a longer text)", U8, M_ARG, 0, 0, ST::char_buffer b("an earlier, longer result still in the caller's buffer", 54); string(p, n, m).to_buffer(b); return R(b););
     RT(T8, "copy of string(p,n,m)", U8, M_ARG, 0, 0, string s(p, n, m); string t(s); return R(t););
     // default-mode overloads
     RT(T8, "string(p,n)", U8, M_DFLT, 0, 0, return R(string(p, n)););
